@@ -138,6 +138,7 @@ def r6(ctx, retsets):
 def check(ctx):
     pdb = ctx.pdb
     retsets = flow.return_sets(pdb)
+    C11.validation_shape(pdb)
     C11.r3(ctx, "C12.R3", "SIGNING")
     C11.r4(ctx, "C12.R4")
     ctx.rule("C12.R5", "rtr_bgpsec_generate_signature refuses NULL arguments / a non-empty output pointer, unsupported suite, AFI outside "
